@@ -1,0 +1,19 @@
+//! Verification facade, compiled only with `--cfg eigerco_lumina_verif`.
+//!
+//! Thin public wrappers over crate-private items so that the external model-checking
+//! harness (`/verif/harness`) can drive the real components.  Nothing in here (or in the
+//! `#[cfg(eigerco_lumina_verif)]` shims inside other modules) contains logic of its own,
+//! and none of it exists in a normal build.
+#![allow(missing_docs, dead_code, clippy::all)]
+
+pub mod daser;
+pub mod header_ex;
+pub mod mock_p2p;
+pub mod pruner;
+pub mod ranges;
+pub mod session;
+pub mod shwap;
+pub mod small;
+pub mod stores;
+pub mod sync;
+pub mod syncer;
